@@ -25,7 +25,7 @@ RULE = ('loader: sets of 0-6 configured names (recording classes with order 0-3,
 ASSUMPTIONS = ['only the first tracepoint logger is used by the agent (documented behaviour), so a second logger '
                'never records', 'the faulted plugin\'s own later calls are not required']
 EXHAUSTIVE = ['per scenario: every (plugin, callback, k-th call) seen in the fault-free run is faulted once']
-REQUIRE = {'loader_base_exception_faults': 4, 'loader_module_exits_at_import': 4, 'loader_sets': 300, 'faults_injected': 1500, 'scenarios': 40, 'callbacks_covered': 5, 'e2e_sessions': 8, 'builtin_plugin_runs': 3}
+REQUIRE = {'loader_switched_off_by_display_name': 5, 'loader_base_exception_faults': 4, 'loader_module_exits_at_import': 4, 'loader_sets': 300, 'faults_injected': 1500, 'scenarios': 40, 'callbacks_covered': 5, 'e2e_sessions': 8, 'builtin_plugin_runs': 3}
 SHARD_TIMEOUT = {'quick': 400, 'thorough': 2400}
 
 HOST = '''"""c20 host"""
@@ -84,7 +84,14 @@ def case_loader(seed, out, spec):
             plugins.make(nm, ['met'], order=order)
             names.append('vf.plugins.' + nm)
             off = r.pick(['false', 'False', 'no', '0'])
-            custom_cfg[('plugin_%s' % nm).upper()] = off
+            if r.chance(0.35):
+                # a plugin that goes by a name of its own (not its class name) is switched off by that name
+                shown = 'Shown%s' % nm[4:]
+                plugins.make(nm, ['met'], order=order, display_name=shown)
+                custom_cfg[('plugin_%s' % shown).upper()] = off
+                out.count('loader_switched_off_by_display_name')
+            else:
+                custom_cfg[('plugin_%s' % nm).upper()] = off
         elif c == 7 and r.chance(0.5):
             # (the last one is a module that guards a missing dependency with sys.exit() at import: SystemExit is not an
             # Exception subclass, and the plugin is skipped like any other whose dependencies are missing)
@@ -152,7 +159,7 @@ def case_loader(seed, out, spec):
             return None
     got = [(p.name, _order(p)) for p in loaded]
     witness['loaded'] = got
-    mine = [g for g in got if g[0].startswith('Load') and g[0] not in ambiguous]
+    mine = [g for g in got if g[0].startswith(('Load', 'Shown')) and g[0] not in ambiguous]
     if sorted(mine) != sorted(expect):
         missing = sorted(set(expect) - set(mine))
         extra = sorted(set(mine) - set(expect))
